@@ -20,7 +20,7 @@ def parseOptNum (s : String) : Option (Option Nat) := if s = "N" then some none 
 def parseIds (s : String) : Option (Option (List Bytes)) :=
   if s = "N" then some none
   else if s = "E" then some (some [])
-  else ((s.splitOn ",").mapM bytesOfHex).map some
+  else ((s.splitOn ",").mapM (fun (e : String) => bytesOfHex (if e.startsWith "u" then (e.drop 1).toString else e))).map some
 
 def showIds : Option (List Bytes) → String
   | none => "N"
